@@ -33,7 +33,7 @@ from seqfold import SymEnum, conj
 from reloadk import Obj
 from modek import ModeExec, IMPL
 
-TRY_RECV_ERR = ["Empty", "Disconnected"]      # crossbeam_channel::TryRecvError, declaration order (checked against the vendored source)
+TRY_RECV_ERR = ["Empty", "Disconnected"]      # crossbeam_channel::TryRecvError, declaration order (checked against the registry source in thread_queries)
 
 
 def enum_order(src, name):
@@ -255,6 +255,18 @@ def thread_queries(repo, fns_list, K, log, native, result):
     order = enum_order(src, "CacheMessage")
     if sorted(order) != sorted(["Ptr", "Static", "Clear", "AddAsset"]):
         raise Unsupported("CacheMessage has other variants than the kernel knows: " + ",".join(order))
+    # declaration order of crossbeam_channel::TryRecvError: read from the registry copy of the locked version when it is there
+    import glob
+    lock = open(os.path.join(repo, "Cargo.lock")).read()
+    mv = re.search(r'name = "crossbeam-channel"\nversion = "([^"]+)"', lock)
+    errsrc = glob.glob(os.path.expanduser(f"~/.cargo/registry/src/*/crossbeam-channel-{mv.group(1)}/src/err.rs")) if mv else []
+    if errsrc:
+        got = enum_order(re.sub(r"///[^\n]*", "", open(errsrc[0]).read()), "TryRecvError")
+        if got != TRY_RECV_ERR:
+            raise Unsupported("crossbeam_channel::TryRecvError is declared as " + ",".join(got))
+        err_note = f"TryRecvError order read from crossbeam-channel {mv.group(1)}"
+    else:
+        err_note = "TryRecvError order (Empty, Disconnected) assumed: registry source not found"
     t0 = time.time()
     fns = {"hot_reloading_thread": main[0]}
     known = ("update_if_local", "use_static_ref", "add_asset", "clear_local_cache", "handle_events", "new")
@@ -275,7 +287,7 @@ def thread_queries(repo, fns_list, K, log, native, result):
         pre += [f"(declare-const x{j} (_ BitVec 64))", f"(declare-const tok{j} (_ BitVec 64))"]
     bounds = (f"hot_reloading_thread from MIR against every script of <= {K} channel interactions (ready 0/1; cache_msg "
               f"{'/'.join(order)}/Empty/Disconnected; events Ok/Empty/Disconnected), symbolic tokens; {len(done)} terminated and "
-              f"{len(ex.cut)} cut control paths, symbolic execution {time.time() - t0:.2f}s")
+              f"{len(ex.cut)} cut control paths, symbolic execution {time.time() - t0:.2f}s; {err_note}")
     res = []
     bad = ["(and " + conj(p.conds) + " (not " + pr[0] + "))" for (p, _), pr in zip(runs, props)]
     v, model, dt, raw = M.solve(pre + ["(assert (or " + " ".join(bad or ["false"]) + "))"], want_model_vars=["mode"] + [f"x{j}" for j in range(K)])
